@@ -63,6 +63,7 @@ DisAlphabet == {
     ExprS(Call("set_variable", <<LStr(nY), Id(nD)>>)),
     ExprS(Call("assert", <<Id(nX), LStr(sM)>>)),
     ExprS(Meth(Id(nC), "set", <<LStr(sK), Id(nX)>>)),
+    ExprS(Meth(Id(nC), "set", <<LStr(sK), LInt(3), Kw("description", Id(nX))>>)),  \* a disabler as keyword argument
     Msg(1, <<Id(nX)>>),
     Msg(2, <<IsDis(Id(nX))>>),
     Msg(3, <<Meth(Id(nC), "has", <<LStr(sK)>>)>>),
@@ -225,7 +226,7 @@ GetAfterSet ==
             c == Eval(x.a[1], After.vs)
             key == x.a[2].cs
             v == Eval(x.a[3], Before.vs)
-        IN (c.k = "cfg" /\ ~IsDisabledVal(v)) =>
+        IN (c.k = "cfg" /\ ~AnyDisabled(ArgVals(Tail(x.a), Before.vs))) =>
              /\ CfgHas(c, key)
              /\ CfgGet(c, key) = (CASE x.s = "set" -> v [] x.s = "set10" -> VInt(v.n) [] x.s = "set_quoted" -> VStr(<<34>> \o v.s \o <<34>>))
              /\ (x.s = "set_quoted" => Unquote(CfgGet(c, key)) = v)
